@@ -312,8 +312,9 @@ class Generator:
         return [i for i, s in self.cov_cond.items() if len(s) < 2]
 
 
-def encode_py(n, vals, env):
-    """python mirror of Spec.FieldFmt2.enc on a record value (validated against the Lean encoder on every payload)"""
+def encode_py(n, vals, env, rjust=False):
+    """python mirror of Spec.FieldFmt2.enc on a record value (validated against the Lean encoder on every payload);
+    rjust=True writes every text value right-justified instead (leading blanks: NOT the canonical form, but the same stored value)"""
     import tables_tre as T
     env = dict(env)
     out = []
@@ -329,14 +330,15 @@ def encode_py(n, vals, env):
             out.append(('{:0' + str(node[1]) + 'd}').format(v).encode() if node[1] else b'')
             env[f['id']] = v
         elif k == 'tstr':
-            out.append(v.encode('utf-8').ljust(T.eval_expr(node[1], env)))
+            w = T.eval_expr(node[1], env)
+            out.append(v.encode('utf-8').rjust(w) if rjust else v.encode('utf-8').ljust(w))
             env[f['id']] = v
         elif k == 'raw':
             out.append(bytes(v))
             env[f['id']] = v
         elif k == 'loop':
             for item in v:
-                out.append(encode_py(node[2], item, env))
+                out.append(encode_py(node[2], item, env, rjust))
             env[f['id']] = None
     return b''.join(out)
 
@@ -478,7 +480,7 @@ def find_class(name):
     return registration.find_tre(name)
 
 
-def oracle(name, env_bytes, expect_refusal=False):
+def oracle(name, env_bytes, expect_refusal=False, origin='description'):
     """byte-level statement of the property for one tagged record given as bytes; returns (messages, decoded object or None)"""
     from sarpy.io.general.nitf_elements.base import TRE, UnknownTRE
     msgs = []
@@ -490,7 +492,7 @@ def oracle(name, env_bytes, expect_refusal=False):
     except Exception as e:
         obj = None
         if not expect_refusal:
-            msgs.append(f'{name}: from_bytes of a payload conformant to the description raised {type(e).__name__}: {str(e)[:160]}')
+            msgs.append(f'{name}: from_bytes of a payload conformant to the {origin} raised {type(e).__name__}: {str(e)[:160]}')
     if obj is not None and expect_refusal:
         msgs.append(f'{name}: from_bytes succeeds although the source reads an attribute of an enclosing element here')
     # the container path: whatever happens, the record must survive byte for byte
@@ -638,17 +640,18 @@ class Session:
             while k < n_lo or (k < n_hi and g.uncovered()):
                 k += 1
                 val, flags, ln = g.payload()
-                self.one_payload(drv, name, t, val, flags)
+                self.one_payload(drv, name, t, val, flags, first=(k <= 2))
             self.cov[name] = {'payloads': k,
                               'conditions': f'{sum(len(s) for s in g.cov_cond.values())}/{2 * len(g.cov_cond)}',
                               'uncovered_conditions': [t['names'].get(str(i), t['names'].get(i, i)) for i in g.uncovered()],
                               'loop_counts': {str(t['names'].get(str(i), t['names'].get(i, i))): sorted(map(str, s)) for i, s in g.cov_loop.items()},
                               'leaf_kinds': g.kinds}
+        self.captured(drv)
         self.dispatch_cases()
         self.probe_cases()
         self.snapshot_search(drv)
 
-    def one_payload(self, drv, name, t, val, flags):
+    def one_payload(self, drv, name, t, val, flags, first=False):
         import tables_tre as T
         st = self.stats
         st['t_payloads'] = st.get('t_payloads', 0) + 1
@@ -679,6 +682,64 @@ class Session:
         i_enc = drv.ask(f'tre enc {name} {to_line(t["tree"], val)}')
         i_dec = drv.ask(f'tre dec {name} {hx(envb + TRAILER)}')
         self.jobs.append((name, val, envb, i_enc, i_dec))
+        if first and not refusal and not key:
+            self.variant(drv, name, t, val, envb)
+
+    def variant(self, drv, name, t, val, envb):
+        """the same value written with right-justified text (not canonical): same length, same field values, and re-encoding gives the
+        canonical record; the lenient model decoder reads the same value and the strict one says "not conformant" unless nothing moved"""
+        import tables_tre as T
+        st = self.stats
+        alt = envelope(t['tag'], encode_py(t['tree'], val, {T.CEL: 0}, rjust=True))
+        st['t_rjust_variants'] = st.get('t_rjust_variants', 0) + 1
+        cls = find_class(name)
+        try:
+            obj = cls.from_bytes(alt + TRAILER, 0)
+            got = from_obj(t['tree'], obj.DATA, {T.CEL: len(alt) - 11})
+            if got != val:
+                self.disagree(name, None, 'right-justified text: sarpy decodes other field values: ' + first_diff(val, got, t['tree']), alt)
+            if obj.get_bytes_length() != len(alt) or len(obj.to_bytes()) != len(alt):
+                self.fails.append({'kind': 'tre', 'msg': f'{name}: a record with right-justified text of {len(alt)} bytes re-encodes to {len(obj.to_bytes())} bytes '
+                                   f'(reported {obj.get_bytes_length()})', 'case': name, 'tre': name, 'bytes': alt.hex()})
+            elif obj.to_bytes() != envb:
+                # not a clause of the property (lengths and values are): a difference between the model's and sarpy's canonical form
+                self.disagree(name, None, 're-encoding a record with right-justified text does not give the left-justified record of the same values', alt)
+        except Mismatch as e:
+            self.disagree(name, None, 'right-justified text: the decoded object does not have the shape of the description: ' + str(e), alt)
+        except Exception as e:
+            self.fails.append({'kind': 'tre', 'msg': f'{name}: from_bytes of a record with right-justified text raised {type(e).__name__}: {str(e)[:160]}',
+                               'case': name, 'tre': name, 'bytes': alt.hex()})
+        self.jobs.append(('variant:' + name, val, (alt, envb), drv.ask(f'tre dec {name} {hx(alt + TRAILER)}'), None))
+
+    def captured(self, drv):
+        """TRE records captured in tests/data: the lenient model decoder and sarpy must read the same field values"""
+        import glob
+        import tables_tre as T
+        st = self.stats
+        data_dir = os.path.join(os.environ.get('SARPY_REPO', '/repo'), 'tests', 'data')
+        for path in sorted(glob.glob(os.path.join(data_dir, '*tre*.bin')) + glob.glob(os.path.join(data_dir, '*.TRE'))):
+            try:
+                raw = open(path, 'rb').read()
+            except OSError:
+                continue
+            name = raw[:6].decode('ascii', 'replace').strip()
+            if name not in self.tres or len(raw) < 11 or not raw[6:11].isdigit():
+                continue
+            st['t_captured'] = st.get('t_captured', 0) + 1
+            t = self.tres[name]
+            rec = raw[:11 + int(raw[6:11])]
+            cls = find_class(name)
+            try:
+                obj = cls.from_bytes(rec + TRAILER, 0)
+                got = from_obj(t['tree'], obj.DATA, {T.CEL: len(rec) - 11})
+                if obj.get_bytes_length() != len(rec) or len(obj.to_bytes()) != len(rec):
+                    self.fails.append({'kind': 'tre', 'msg': f'{name} ({os.path.basename(path)}): {len(rec)} bytes re-encode to {len(obj.to_bytes())} (reported {obj.get_bytes_length()})',
+                                       'case': name, 'tre': name, 'bytes': rec.hex()})
+                self.jobs.append(('captured:' + name, got, (rec, obj.to_bytes()), drv.ask(f'tre dec {name} {hx(rec + TRAILER)}'), None))
+            except Mismatch as e:
+                self.disagree(name, None, f'captured {os.path.basename(path)}: the decoded object does not have the shape of the description: {e}', rec)
+            except Exception as e:
+                st['t_captured_refused'] = st.get('t_captured_refused', 0) + 1
 
     def disagree(self, name, key, msg, envb):
         d = {'case': name, 'msg': msg, 'bytes': envb.hex()[:4000]}
@@ -767,7 +828,7 @@ class Session:
                     continue
                 st['t_snapshot_payloads'] = st.get('t_snapshot_payloads', 0) + 1
                 envb = envelope(tag, encode_py(tree, val, {T.CEL: 0}))
-                msgs, obj = oracle(name, envb)
+                msgs, obj = oracle(name, envb, origin='pinned layout (translate/tre_snapshot.json)')
                 if obj is not None and not msgs:
                     try:
                         got = from_obj(tree, obj.DATA, {T.CEL: ln})
@@ -776,7 +837,8 @@ class Session:
                     except Mismatch as e:
                         msgs.append(f'{name}: a payload conformant to the pinned layout is decoded to an object of another shape: {e}')
                 for m in msgs[:1]:
-                    self.fails.append({'kind': 'tre-layout', 'msg': m, 'case': name, 'tre': name, 'bytes': envb.hex(), 'pinned': True})
+                    self.fails.append({'kind': 'tre-layout', 'msg': m, 'case': name, 'tre': name, 'bytes': envb.hex(), 'pinned': True,
+                                       'expected_fields': canon_dict(val)})
                     found += 1
                 if found >= 2:
                     break
@@ -798,6 +860,22 @@ class Session:
                 want = ','.join(f'{n}:' + '/'.join(f'{k}={v}' for k, v in sorted(d['by_length'].items())) for n, d in sorted(self.gen['dispatch'].items()))
                 if ans[i_enc] != want:
                     self.disagreements.append({'case': 'dispatch', 'msg': 'the generated dispatch table differs from the translator output', 'model': ans[i_enc][:300]})
+                continue
+            if name.startswith('variant:') or name.startswith('captured:'):
+                kind, name = name.split(':', 1)
+                alt, canon_b = envb
+                st['t_model_records'] = st.get('t_model_records', 0) + 1
+                r = ans[i_enc].split()
+                if r[:1] != ['ok'] or len(r) != 4:
+                    self.disagreements.append({'case': name, 'msg': f'{kind}: model decode fails: ' + ans[i_enc][:80], 'bytes': alt.hex()[:4000]})
+                else:
+                    _, mv, rest, conf = r
+                    if rest != hx(TRAILER) or mv != to_line(self.tres[name]['tree'], val):
+                        self.disagreements.append({'case': name, 'msg': f'{kind}: the lenient model decoder and sarpy read different values', 'bytes': alt.hex()[:4000],
+                                                   'model': mv[:300]})
+                    elif (conf == 'true') != (alt == canon_b):
+                        self.disagreements.append({'case': name, 'msg': f'{kind}: strict model decoder says conformant = {conf}, but sarpy re-encodes the record '
+                                                   + ('identically' if alt == canon_b else 'differently'), 'bytes': alt.hex()[:4000]})
                 continue
             st['t_model_records'] = st.get('t_model_records', 0) + 1
             seen.add(name)
@@ -871,6 +949,10 @@ def replay_case(case):
             try:
                 got = from_obj(tree, obj.DATA, {T.CEL: len(b) - 11})
                 print('decoded by sarpy (read by the pinned layout):', json.dumps(canon_dict(got))[:600])
+                if 'expected_fields' in case:
+                    print('field values the record was generated from     :', json.dumps(case['expected_fields'])[:600])
+                    if canon_dict(got) != case['expected_fields']:
+                        msgs.append(f'{name}: sarpy reads other field values than the pinned layout')
             except Mismatch as e:
                 msgs.append(f'{name}: decoded object does not have the pinned shape: {e}')
     for m in msgs:
